@@ -3,6 +3,7 @@
 package c10
 
 import (
+	"math/big"
 	"bytes"
 	"fmt"
 	"math"
@@ -10,6 +11,7 @@ import (
 
 	"github.com/golang/geo/r1"
 	"github.com/golang/geo/s1"
+	"github.com/golang/geo/r3"
 	"github.com/golang/geo/s2"
 
 	"verif/internal/gen"
@@ -51,15 +53,18 @@ type bounds struct {
 //   - near-full-cap: the cap's radius is within 1e-6 rad of 180 degrees, where
 //     the squared-chord representation resolves only ~2e-8 rad;
 //   - nearly-antipodal-edge: the probe lies on an edge whose endpoints are
-//     within 0.1 rad of antipodal and the miss is below 1e-14/|a+b| (the
+//     within 0.5 rad of antipodal (but not within 2e-15, where the bounder switches to the full rectangle) and the miss is below 1e-14/|a+b| (the
 //     edge's plane is ill-conditioned and PointCross is not exact);
 //   - beyond-representation: everything else.
 func checkProbe(c *mon.Case, what string, b bounds, p s2.Point, kind string, det func() any) {
-	checkProbeEdge(c, what, b, p, kind, 2, det)
+	checkProbeEdge(c, what, b, p, kind, 2, 0, det)
 }
 
 // antiNorm is |a+b| of the edge the probe was taken from (2 when not applicable).
-func checkProbeEdge(c *mon.Case, what string, b bounds, p s2.Point, kind string, antiNorm float64, det func() any) {
+// perr is the distance (320-bit) from the probe to the nearest true point of the region when the probe is a
+// rounded sample of an edge; a miss counts only by the amount it exceeds perr (the bound then misses that
+// true point), and is dropped if it does not.
+func checkProbeEdge(c *mon.Case, what string, b bounds, p s2.Point, kind string, antiNorm, perr float64, det func() any) {
 	c.Count("probes.checked", 1)
 	ll := s2.LatLngFromPoint(p)
 	if !b.rect.ContainsLatLng(ll) {
@@ -69,31 +74,42 @@ func checkProbeEdge(c *mon.Case, what string, b bounds, p s2.Point, kind string,
 			d2 := math.Abs(math.Remainder(float64(ll.Lng)-b.rect.Lng.Hi, 2*math.Pi))
 			ex = math.Min(d1, d2) * math.Cos(ll.Lat.Radians()) // as a distance on the sphere
 		}
+		ex -= perr
+		if ex <= 0 {
+			c.Count("probes.miss_within_probe_error", 1)
+			goto capCheck
+		}
 		class := "beyond-representation"
 		switch {
 		case ex <= 4e-15:
 			class = "representation-level"
-		case antiNorm < 0.1 && ex <= 1e-14/antiNorm:
+		case antiNorm < 0.5 && antiNorm >= 2e-15 && ex <= 1e-14/antiNorm: // (below 2e-15 the bounder itself switches to the full rectangle)
 			class = "nearly-antipodal-edge"
 		}
 		c.Max("RectBound.max_miss_rad."+class, ex)
 		c.Violation("RectBound/"+class+"/"+what+"/misses-"+kind, fmt.Sprintf("RectBound %v does not contain the lat/lng (%.17g, %.17g) of a %s of the region (outside by %.3g rad)", b.rect, ll.Lat.Radians(), ll.Lng.Radians(), kind, ex), det())
 	}
+capCheck:
 	if !b.cap.ContainsPoint(p) {
 		rad := ref.AngleFromChord2(2 * b.cap.Height())
-		ex := ref.Angle(ref.HV(gen.V(b.cap.Center())), ref.HV(gen.V(p))) - rad
+		ex := ref.Angle(ref.HV(gen.V(b.cap.Center())), ref.HV(gen.V(p))) - rad - perr
+		if ex <= 0 {
+			c.Count("probes.miss_within_probe_error", 1)
+			goto cellCheck
+		}
 		class := "beyond-representation"
 		switch {
 		case rad > math.Pi-1e-6 && ex <= 1e-7:
 			class = "near-full-cap"
 		case ex <= 4e-15+2e-15/math.Max(math.Sin(rad), 1e-9):
 			class = "representation-level"
-		case antiNorm < 0.1 && ex <= 1e-14/antiNorm:
+		case antiNorm < 0.5 && antiNorm >= 2e-15 && ex <= 1e-14/antiNorm: // (below 2e-15 the bounder itself switches to the full rectangle)
 			class = "nearly-antipodal-edge" // cap bounds of loops and polylines are derived from the rectangle bound
 		}
 		c.Max("CapBound.max_miss_rad."+class, ex)
 		c.Violation("CapBound/"+class+"/"+what+"/misses-"+kind, fmt.Sprintf("CapBound (radius %.6g rad) does not contain a %s of the region: outside by %.3g rad", rad, kind, ex), det())
 	}
+cellCheck:
 	if b.cells != nil {
 		leaf := s2.CellFromPoint(p).ID()
 		ok := false
@@ -135,11 +151,16 @@ func edgeSamplesRaw(r *rand.Rand, a, b s2.Point) []s2.Point {
 		ps = append(ps, s2.Interpolate(t, a, b))
 	}
 	// extreme latitude of the great circle: the point of the circle closest to the pole
-	n := a.PointCross(b).Normalize()
+	// (computed with 320 bits: pole - n (pole.n)/(n.n) cancels badly in float64 when the circle is nearly equatorial)
+	hn := ref.HV(gen.V(a)).Cross(ref.HV(gen.V(b)))
+	nn := hn.Norm2()
 	for _, pole := range []s2.Point{s2.PointFromCoords(0, 0, 1), s2.PointFromCoords(0, 0, -1)} {
-		q := pole.Sub(n.Mul(pole.Dot(n)))
-		if q.Norm2() > 1e-30 {
-			p := s2.Point{Vector: q.Normalize()}
+		hp := ref.HV(gen.V(pole))
+		k := new(big.Float).SetPrec(ref.Prec).Quo(hp.Dot(hn), nn)
+		hq := hp.Sub(hn.Scale(k))
+		if !hq.IsZero() && ref.Fl(hq.Norm2()) > 1e-30 {
+			u := hq.Unit().V()
+			p := s2.Point{Vector: r3.Vector{X: u[0], Y: u[1], Z: u[2]}}
 			// keep it if it is on the edge
 			if s2.Project(p, a, b).Distance(p).Radians() < 1e-14 {
 				ps = append(ps, p, gen.NudgeUlps(r, p, 1))
@@ -311,7 +332,9 @@ func polylineCase(c *mon.Case) {
 		if i+1 < n {
 			for _, e := range edgeSamples(r, v, vs[i+1]) {
 				// a rounded sample may be ~1e-16 off the edge; the bounds are documented to absorb that
-				checkProbeEdge(c, "Polyline", b, e, "edge-point", v.Add(vs[i+1].Vector).Norm(), det)
+				perr := ref.AngleFromChord2(ref.Fl(ref.DistChord2ToSegment(ref.HV(gen.V(e)), ref.HV(gen.V(v)), ref.HV(gen.V(vs[i+1])))))
+				c.Max("probes.max_edge_sample_error_rad", perr)
+				checkProbeEdge(c, "Polyline", b, e, "edge-point", v.Add(vs[i+1].Vector).Norm(), perr, det)
 			}
 		}
 	}
